@@ -57,6 +57,21 @@ def entry_path(e):
     return ''.join(chr(int(x)) for x in enc.split('.')) if enc != '_' else ''
 
 
+def levels_above_threshold(a, b, thr):
+    """no pair of dictionaries met by the position-by-position comparison shares too few keys (len(shared) / len(union) < thr with more than one key)"""
+    if isinstance(a, dict) and isinstance(b, dict):
+        ka = [k for k in a if not (isinstance(k, str) and k.startswith('__'))]
+        kb = [k for k in b if not (isinstance(k, str) and k.startswith('__'))]
+        shared = [k for k in ka if k in b]
+        union = len(set(ka) | set(kb))
+        if union > 1 and len(shared) / union < thr:
+            return False
+        return all(levels_above_threshold(a[k], b[k], thr) for k in shared)
+    if isinstance(a, (list, tuple)) and type(a) is type(b):
+        return all(levels_above_threshold(x, y, thr) for x, y in zip(a, b))
+    return True
+
+
 def string_keys_only(p):
     return not re.search(r"\[(?!'|\d+\])", p) and not re.search(r"\[-?\d+\.", p)
 
@@ -105,11 +120,12 @@ def run(ctx, impl_only=False):
             chosen = [[p] for p in cand[: (12 if ctx.thorough() else 5)]]
             if len(cand) >= 2:
                 chosen += [list(ctx.rng.sample(cand, 2)) for _ in range(3)]
+            chosen.append(['root'])               # the depth-0 path: everything is at or below it, nothing is above it
             for ps in chosen:
                 for mode in ('exclude', 'regex', 'include', 'mixed'):
                     if mode == 'mixed' and len(ps) < 2:
                         continue          # one path excluded literally, the other by regex, in the same call
-                    if mode == 'include' and not all(strk[p] and '["' not in p for p in ps):
+                    if mode == 'include' and not all(strk.get(p, True) and '["' not in p for p in ps):
                         ctx.count('out_of_domain:include_nonstring_key'); continue
                     case = {'t1': repr(t1), 't2': repr(t2), 'zip': zip_, 'mode': mode, 'paths': ps}
                     ctx.evaluations += 1
@@ -153,6 +169,58 @@ def run(ctx, impl_only=False):
                             pass
         if len(ctx.samples) < 4:
             ctx.sample({'t1': repr(t1)[:100], 't2': repr(t2)[:100], 'paths': plist[:5]})
+    # ---- the default threshold, on pairs where no dictionary level of the unrestricted comparison is "too different" (there the shortcut is
+    #      finding F10b): excluding a path can only raise the key overlap, so the filter equation must hold
+    low = []
+    for _ in range(max(12, n // 5)):
+        # dictionaries that share few keys, just above the threshold: 2 of 5, 2 of 6, 3 of 8, 1 of 3
+        ns, no = ctx.rng.choice([(2, 3), (2, 4), (3, 5), (1, 2), (3, 6)])
+        ks = ctx.rng.sample(['a', 'b', 'c', 'dd', 'k1', 'x y', 'id', 'name', 'p', 'q', 'r', 's', 't'], ns + no)
+        shared, rest = ks[:ns], ks[ns:]
+        cut = ctx.rng.randint(0, len(rest))
+        vals = [0, 1, 'x', 'y', 2.5, None, [1, 2], {'z': 1}]
+        d1 = {k: ctx.rng.choice(vals) for k in shared + rest[:cut]}
+        d2 = {k: (d1[k] if ctx.rng.random() < 0.5 else ctx.rng.choice(vals)) for k in shared}
+        d2.update({k: ctx.rng.choice(vals) for k in rest[cut:]})
+        if ctx.rng.random() < 0.4:
+            d1, d2 = {'w': d1, 'v': 1}, {'w': d2, 'v': 1}
+        low.append((d1, d2))
+    for (t1, t2) in low + pairs[: max(20, len(pairs) // 2)]:
+        if not levels_above_threshold(t1, t2, 0.33):
+            ctx.count('default_threshold_out_of_domain'); continue
+        paths = {}
+        for p, d, so in all_paths(t1) + all_paths(t2):
+            paths[p] = paths.get(p, True) and d
+        cand = [p for p in sorted(paths) if paths[p]]
+        if not cand:
+            continue
+        base_kw = dict(zip_ordered_iterables=True, verbose_level=2)
+        try:
+            full = DF.canon_text(DeepDiff(t1, t2, **base_kw), 2)
+        except (OutOfUniverse, DF.BadDiffText):
+            continue
+        for p in ctx.rng.sample(cand, min(len(cand), 6 if ctx.thorough() else 4)):
+            for mode in ('exclude', 'regex'):
+                case = {'t1': repr(t1), 't2': repr(t2), 'zip': True, 'mode': mode, 'paths': [p], 'threshold': 'default'}
+                ctx.evaluations += 1
+                kw = dict(base_kw)
+                if mode == 'exclude':
+                    kw['exclude_paths'] = [p]
+                else:
+                    kw['exclude_regex_paths'] = ['^' + re.escape(p) + r'(\[|$)']
+                want = [e for e in full if not (entry_path(e) is not None and at_or_below(entry_path(e), p))]
+                try:
+                    got = DF.canon_text(DeepDiff(t1, t2, **kw), 2)
+                except (OutOfUniverse, DF.BadDiffText):
+                    continue
+                except Exception as e:
+                    ctx.violate(case, 'DeepDiff raised %s with the path option' % type(e).__name__); continue
+                ctx.count('default_threshold:' + mode)
+                if got != want:
+                    extra = [e for e in got if e not in want]
+                    missing = [e for e in want if e not in got]
+                    ctx.violate(case, '%s is not a pure filter at the default threshold: %d entries missing, %d extra (first: %s)' % (
+                        mode, len(missing), len(extra), entry_path((missing + extra)[0])))
     if ctx.build_ok and not impl_only and lines:
         ans = core.run_model(lines)
         for (case, a), m in zip(metas, ans):
